@@ -1,7 +1,7 @@
 (* Dispatch: the single entry point [run : sx -> sx] of the executable model. *)
 From Coq Require Import List ZArith NArith Bool.
 From Coq Require Import QArith.
-From SV Require Import Sx Str Omap Beat Props Notes Group Msd Simfile Engine TimingSrc Convert Mutate MutateRun Generated.Tables.
+From SV Require Import Sx Str Omap Beat Props Notes Group Msd Simfile Engine TimingSrc Convert Mutate MutateRun Dir Generated.Tables.
 Open Scope Z_scope.
 Import ListNotations.
 Open Scope Z_scope.
@@ -194,6 +194,20 @@ Definition run_mutate (cmd : Z) (args : list sx) : sx :=
   | _, _ => bad_request
   end.
 
+Definition run_dir (cmd : Z) (args : list sx) : sx :=
+  match cmd, args with
+  | 190, [l; ign] => do l' <- un_list un_str l; do ign' <- un_bool ign;
+      ok (L [sx_dres (fun p => L [sx_opt sx_str (fst p); sx_opt sx_str (snd p)]) (simfile_directory l' ign');
+             sx_dres sx_str (dir_open_target l' ign')])
+  | 191, [es] => do es' <- un_list (un_pair un_str (un_opt (un_list un_str))) es; ok (sx_list sx_str (pack_dirs es'))
+  | 192, [l; nm; sib] => do l' <- un_list un_str l; do nm' <- un_str nm; do sib' <- un_list un_str sib;
+      ok (sx_banner (pack_banner l' nm' sib'))
+  | 193, [kind; l; sp] => do kind' <- un_str kind; do l' <- un_list un_str l;
+      do sp' <- un_opt (un_pair un_str (un_opt (un_list un_str))) sp;
+      ok (sx_answer (asset_lookup kind' l' sp'))
+  | _, _ => bad_request
+  end.
+
 Definition dispatch_request (req : sx) : sx :=
   match req with
   | L (A cmd :: args) =>
@@ -206,6 +220,7 @@ Definition dispatch_request (req : sx) : sx :=
       else if (150 <=? cmd) && (cmd <? 160) then run_tsrc cmd args
       else if (160 <=? cmd) && (cmd <? 170) then run_convert cmd args
       else if (180 <=? cmd) && (cmd <? 190) then run_props cmd args
+      else if (190 <=? cmd) && (cmd <? 200) then run_dir cmd args
       else bad_request
   | _ => bad_request
   end.
